@@ -437,6 +437,33 @@ def _function_class_case(ctx, G, cat, rng, names, shipped):
     # a second subclass without a definition of its own reads the parent's
     heir = type("Heir", (parent,), {})
     ok and judge(heir, ast1, text1, "subclass-without-definition")
+    # a class whose definition is malformed is rejected whenever it is used, not only the first time
+    stripped = render(ast2, rng, fancy=False).rstrip()        # (no comments: the last character is the last closing bracket)
+    if rng.random() < 0.5 and stripped.endswith(">"):
+        bad_text, what = stripped[:-1], "missing_bracket"
+    else:
+        import re
+
+        def items_of(node):
+            return [node[1]] if node[0] == "item" else [n for m in node[2] for n in items_of(m)]
+        first_item = rng.choice(items_of(ast2))
+        # (whole word only: a list may carry a name that contains an item name, e.g. SVIDS)
+        bad_text, nsub = re.subn(r"(?<![A-Za-z0-9_])" + re.escape(first_item) + r"(?![A-Za-z0-9_])", "NOSUCHITEM", stripped, count=1)
+        what = "unknown_item"
+        if nsub != 1:
+            return
+    bad_parent = parent if rng.random() < 0.5 else SecsStreamFunction
+    broken = type("Broken", (bad_parent,), {"_stream": 99, "_function": 3, "_data_format": bad_text})
+    for use in range(3):
+        ctx.count("oracle.malformed_function_class_uses")
+        for how, call in (("instantiate", lambda: broken()), ("get_format", lambda: broken.get_format())):
+            try:
+                call()
+            except Exception:
+                continue
+            ctx.violation(f"malformed-definition-accepted-by-function-class:{what}:{how}:use-{use + 1}",
+                          {"definition": " ".join(bad_text.split())[:400], "derived_from": bad_parent.__name__})
+            return
 
 
 def run(ctx):
